@@ -885,7 +885,7 @@ func direct(q *reqSpec, viaWriteTo bool) (o *observed, panicked string) {
 func TestC24(t *testing.T) {
 	r := mon.Start(t, "C24")
 	defer r.Finish()
-	r.Rule("case = (handler configuration out of 12: os root / fstest.MapFS / os.DirFS, Compress off/gzip/br/zstd, short cache, and the FS handler behind CompressHandler / CompressHandlerBrotliLevel / CompressHandlerLevel) x (file of size 0,1,5000,6000,8000,8191,8192,8193,100003, text or random bytes, whole-second or sub-second mtime) x Range value from a grammar (a-b, a-, -n, -0, ranges longer than 4096 bytes that end before EOF, whitespace, multi-range, numbers beyond int64, garbage; numbers placed around 0, len-1, len, page sizes) x Accept-Encoding x If-Modified-Since (equal/before/after mtime, obsolete formats, near misses, garbage); each case is executed as HEAD then GET through Server.ServeConn on an in-memory connection and, for a third of them, by a direct handler call whose body stream is read with odd sizes or drained with Response.BodyWriteTo into a writer that has no ReadFrom; one case in six is aimed at the small-file reader (os root, file in (4 KiB, 8 KiB], long range, compressing wrapper or BodyWriteTo); distinct = set of (configuration, file, generator tags of range/encoding/date, transport); non-trivial = the request carries Range, If-Modified-Since or Accept-Encoding. Second loop: ParseByteRange(value, length) over the same grammar and lengths up to MaxInt64. Third loop (file updates): an os root with Compress+br+zstd, the file served once per coding (creating the .fasthttp.* siblings), rewritten with new content and an mtime 2 s .. 26 h newer (os.Chtimes), then requested per coding, plain and ranged through a fresh handler over the same root and through the SkipCache handler: body (decoded) and Last-Modified must be the current ones")
+	r.Rule("case = (handler configuration out of 12: os root / fstest.MapFS / os.DirFS, Compress off/gzip/br/zstd, short cache, and the FS handler behind CompressHandler / CompressHandlerBrotliLevel / CompressHandlerLevel) x (file of size 0,1,5000,6000,8000,8191,8192,8193,100003, text or random bytes, whole-second or sub-second mtime) x Range value from a grammar (a-b, a-, -n, -0, ranges longer than 4096 bytes that end before EOF, whitespace, multi-range, numbers beyond int64, garbage; numbers placed around 0, len-1, len, page sizes) x Accept-Encoding x If-Modified-Since (equal/before/after mtime, obsolete formats, near misses, garbage); each case is executed as HEAD then GET through Server.ServeConn on an in-memory connection and, for a third of them, by a direct handler call whose body stream is read with odd sizes or drained with Response.BodyWriteTo into a writer that has no ReadFrom; one case in six is aimed at the small-file reader (os root, file in (4 KiB, 8 KiB], long range, compressing wrapper or BodyWriteTo); distinct = set of (configuration, file, generator tags of range/encoding/date, transport); non-trivial = the request carries Range, If-Modified-Since or Accept-Encoding. Second loop: ParseByteRange(value, length) over the same grammar and lengths up to MaxInt64. Fourth loop (sequences): blocks of 100 sequences, each block with handlers of its own (os root, MapFS, DirFS), strictly sequential [HEAD or GET with Range] -> [GET] -> [GET with another Range] and [HEAD+Range] -> [HEAD] -> [GET] on one file served by bigFileReader, the first body read fully / through BodyWriteTo / partly / not at all, a third of them over one kept-alive connection: the second request draws the pooled reader of the first and must be judged like any other GET. Third loop (file updates): an os root with Compress+br+zstd, the file served once per coding (creating the .fasthttp.* siblings), rewritten with new content and an mtime 2 s .. 26 h newer (os.Chtimes), then requested per coding, plain and ranged through a fresh handler over the same root and through the SkipCache handler: body (decoded) and Last-Modified must be the current ones")
 	r.Assume("oracle written from RFC 7232/7233: file bytes and mtimes are those the test wrote; response framing is parsed by net/http; gzip by compress/gzip, br/zstd by the andybalholm/klauspost decoders")
 	r.Assume("file-update cases: only paths that cannot hit the in-memory handle cache are judged (fresh handler, SkipCache); re-validation after CacheDuration expiry is not exercised because the expiry moment cannot be observed soundly from outside; Last-Modified is compared with the mtime the test set (truncated to the second)")
 	r.Assume("left unjudged (counted as skipped_*): multi-range and whitespace-containing or otherwise malformed Range values, numbers that do not fit int64, suffix ranges on an empty file, last<first (200 or 416 accepted), 206 together with Content-Encoding from the FS handler itself (behind CompressHandler* it is decoded and compared with the slice), HEAD/GET header equality behind CompressHandler* (status only), If-Modified-Since in obsolete/near-miss formats, and the precedence between a not-newer If-Modified-Since and a Range (304 or the range outcome accepted); an unjudged 206 must still be self-consistent (Content-Range inside the file, body = that slice)")
@@ -1153,7 +1153,10 @@ func TestC24(t *testing.T) {
 	r.Require("parse_accepted", m/20)
 
 	// ---- file updates between requests (case indices after the sweep)
-	runUpdateCases(r, n+m)
+	u := runUpdateCases(r, n+m)
+
+	// ---- sequences on one handler and one file: pooled big-file readers must not carry state over
+	runSequenceCases(r, n+m+u, files)
 }
 
 func callParse(v string, L int) (s, e int, err error, pan string) {
